@@ -412,6 +412,11 @@ func C03real(r *ev.Report) {
 func init() {
 	Parts["C03real"] = Part{"C03", C03real}
 	Replayers["C03"] = func(c Case) (bool, string) {
+		switch c["op"] {
+		case "bin", "equals", "unary", "predicate", "neighbour", "sqrt", "parse", "wide":
+			return Replayers["C12"](c)
+		}
+
 		var which int
 		fmt.Sscan(c["receiver"], &which)
 
